@@ -37,6 +37,20 @@ CLAIMED.update({
    text="Decides necessary conditions of history independence: no in-place mutation is reachable through any alias of the caller's containers (settings dict, its list values, languages, locales, date_formats; interprocedural, field-based); every temporary store to a field of a Settings object (cached per settings hash, hence shared between calls) is stored back from a saved value on every normal and exceptional exit of the function or of all its callers; the five class-level dictionary caches are written only by _add_to_cache, keyed by (settings hash, globally distinct locale name), with an eviction that cannot remove the entry just written; the settings hash digests every key with its value; no set-typed value is joined, indexed or early-returned from. Does not decide equality of results across arbitrary histories.",
    note="Lazy per-locale attributes that depend on the first caller's SKIP_TOKENS are NOT armed here (no history with a differing result could be produced); they appear in C20's inventory only. Exemption with checked precondition: settings.NORMALIZE = True in Locale._get_split_dictionary.", ref="DESIGN.md §4 C03"),
 })
+CLAIMED.update({
+ "C08": dict(cat="other", tech="guard-formula extraction with finite truth tables; option/directive table agreement (ast)",
+   text="Decides: none of the statements that change the result in the absolute parser's correction stages is enabled for a date that states day, month and a four-digit year (guards evaluated over all assignments of the token/preference atoms); the month (day) completion is disabled whenever the string states the month (day) and enabled for year-only (month-year) strings; the month is completed before the day; the option dicts map first->1, last->last valid day of that year/month resp. 12, current->reference value else clock, with a ValueError fallback to `last` (clamp); callers pass the reference day/month; the directive table deciding which parts a custom format states agrees with strptime's semantics for every standard directive; period follows the finest part present. Does not decide calendar.monthrange or periods of arbitrary strings.",
+   note="Trusted: the directive->parts oracle taken from the Python documentation; component parsed <=> its token attribute set (constraint of the truth tables).", ref="DESIGN.md §4 C08"),
+ "C09": dict(cat="other", tech="guard implication (pairwise unsatisfiability) + sign analysis over the extracted effect pipeline (ast)",
+   text="Decides: for every shift effect and every later absolute set of month/day the guard conjunction is unsatisfiable (otherwise KNOWN-FINDING: the month completion clobbers weekday-only and time-only shifts - pinned by an existing test); every shift enabled under 'past' is <= 0 and under 'future' >= 0 (sign domain {-,0,+}; counters shown non-negative); non-weekday shifts need an explicit past/future preference; the same-weekday step is 7 under past/future and 0 otherwise; the comparisons against the reference instant point the right way. Does not decide nearest-occurrence arithmetic or the Feb-29 repair.",
+   note="Same extraction and constraints as C08.", ref="DESIGN.md §4 C09"),
+ "C10": dict(cat="other", tech="non-interference (raise-only reader), must-pass-through on CFG dominators with callee summaries, context rule for clock reads (ast)",
+   text="Decides: STRICT_PARSING/REQUIRE_PARTS are read only in a function whose sole effect is raising ValueError and whose calls are statements, so strictness can only reject; every completion site (set_correct_*_from_settings, `part or now.part` defaults, datetime.today() in the custom-format parser) is dominated by a filter call that receives the computed missing parts - directly, through a callee all of whose exits are dominated by the filter, or in all callers; a format rejected by the filter is skipped; every read of the reference time / system clock in the absolute and custom-format paths is a default of `part or ...`, a comparison operand, an initialisation of self.now, or under a missing-part guard. Does not decide fall-through to later parsers/locales.",
+   note="The two-digit-year century choice is the one accepted clock dependence (C09's subject).", ref="DESIGN.md §4 C10"),
+ "C20": dict(cat="other", tech="ownership fixpoint + inventory/classification of writes to process-wide state (lockset-style, ast + type inference)",
+   text="Decides the static part: every attribute/item store, delete, setattr and mutating call whose receiver is process-wide (module variables, class attributes, class-level containers, fields of shared instances - least fixpoint) and that is reachable from the public API is construction of an unpublished object, a keyed memo, an argument-independent and completely published lazy memo, lock-protected, or guarded by a feature the property excludes; every other write is reported with its site. The 15 sites reported on today's tree are genuine (each confirmed with a one-preemption schedule A|B|A against the real code, scripts under triage/witness) and are listed as known findings; any additional unsynchronised shared write, temporary override, per-call value on a singleton or partially published cache is a new VIOLATION. Does not enumerate interleavings.",
+   note="Class-based ownership with two instance-level refinements (fresh local from a constructor call; objects reachable only through a reported publication). Two checked exemptions: settings.NORMALIZE=True on the default Settings; cached values whose argument-dependent part has no reader (_wordchars, _splitters).", ref="DESIGN.md §4 C20"),
+})
 NA_REASON = {}
 
 def main():
